@@ -837,6 +837,7 @@ func runGrpcHistory(h *history) ([]opResult, error) {
 	}
 	defer p.close()
 	res := make([]opResult, len(h.ops))
+	slips := make([]int64, len(h.ops)) // written by the op goroutines (accepts included), read after the wait below
 	var wg sync.WaitGroup
 	start := time.Now()
 	deadline := start.Add(time.Duration(h.horizon()) * time.Millisecond)
@@ -850,17 +851,19 @@ func runGrpcHistory(h *history) ([]opResult, error) {
 		}
 		if o.kind == 'a' {
 			res[i].res = "ok"
-			go func() {
+			go func(i int) {
 				time.Sleep(time.Until(start.Add(time.Duration(o.at) * time.Millisecond)))
+				atomic.StoreInt64(&slips[i], time.Since(start).Milliseconds()-int64(o.at))
 				defer func() { recover() }()
 				servePingPong(acceptor, o.id)
-			}()
+			}(i)
 			continue
 		}
 		wg.Add(1)
 		go func(i int) {
 			defer wg.Done()
 			time.Sleep(time.Until(start.Add(time.Duration(o.at) * time.Millisecond)))
+			atomic.StoreInt64(&slips[i], time.Since(start).Milliseconds()-int64(o.at))
 			type r struct {
 				ans string
 				c   *grpc.ClientConn
@@ -904,6 +907,9 @@ func runGrpcHistory(h *history) ([]opResult, error) {
 	wg.Wait()
 	for _, c := range conns {
 		c.Close()
+	}
+	for i := range res {
+		res[i].slip = int(atomic.LoadInt64(&slips[i]))
 	}
 	return res, nil
 }
@@ -1011,7 +1017,7 @@ func init() {
 			{900, 'd', 403, 1, "matched"}, {1200, 'a', 403, 0, "matched"}, {1500, 'a', 403, 1, "matched"}, {1600, 'd', 403, 0, "matched"}}})
 		results := make([][]opResult, len(hs))
 		errs := make([]error, len(hs))
-		parallel(len(hs), 32, func(i int) { results[i], errs[i] = runGrpcHistory(hs[i]) })
+		parallel(len(hs), 32, func(i int) { results[i], errs[i] = stableHistory(hs[i], runGrpcHistory) })
 		for i, h := range hs {
 			emitGrpcHistory(o, h, results[i], errs[i])
 		}
